@@ -153,6 +153,9 @@ def _queries(fog, model, q, info):
     if not ms:
         expect("PerfectVisibility-iff-empty", isinstance(r, Raised) and isinstance(r.exc, PerfectVisibility),
                f"nearest_right({q}) on a complete fog gave {r!r}")
+        # ... and must not be mistaken for "nothing to the right" by `except FullDirectionalVisibility`
+        expect("FullDirectionalVisibility-iff-nothing-right", not isinstance(r.exc, FullDirectionalVisibility),
+               f"nearest_right({q}) on a complete fog raised {type(r.exc).__name__}, which is a FullDirectionalVisibility")
     elif containing:
         expect("nearest_right-prefers-containing", isinstance(r, tuple)
                and tuple(int(x) for x in r) == containing[0], f"nearest_right({q}) gave {r!r}, expected {containing[0]}")
